@@ -439,7 +439,7 @@ def shards(tier):
 
 def run_shard(spec, seed, tier):
     res = ShardResult()
-    n = 40 if tier == "quick" else 250
+    n = 80 if tier == "quick" else 800
     if spec["kind"] == "huge":
         first = {}
         for shuffled in ((False,) if tier == "quick" else (False, True)):
